@@ -21,7 +21,8 @@ def roots(o, acc=None, depth=0):
     elif k == "capture":
         acc.add(("capture", o[1]))
     elif k == "const":
-        acc.add(("const", mir.o_const_value(o) if mir.o_const_value(o) is not None else (o[1].get("def") or o[1].get("fn") or o[1].get("ty"))))
+        st = (o[1].get("v") or {}).get("static") if isinstance(o[1].get("v"), dict) else None
+        acc.add(("const", mir.o_const_value(o) if mir.o_const_value(o) is not None else (st or o[1].get("def") or o[1].get("fn") or o[1].get("ty"))))
     elif k == "call":
         cs = o[1]
         acc.add(("callsite", cs.bb))
